@@ -221,6 +221,25 @@ example : Reachable demo2 := ⟨_, rfl⟩
 example : demo2.ctx = .inTask 1 ∧ runnableTasks demo2 false = .ok [] ∧ blockedTasks demo2 false = .ok [0]
     ∧ allTasks demo2 = [0, 1] := by decide
 
+/-- `Task.cancel()` refused by a pending future (asyncio.gather whose children are all done but whose
+    own completion is still queued): the task keeps waiting, now with `_must_cancel` set.  It is
+    blocked, not runnable, not queued - the partition still holds. -/
+def demo3 : State :=
+  run init [.resume, .newFut, .create false, .begin, .endStep (.yieldFut 0), .setNoCancel 0 true,
+    .cancelTask 0]
+
+example : Reachable demo3 := ⟨_, rfl⟩
+example : (demo3.tasks 0).mustCancel = true ∧ isBlocked demo3 0 = true ∧ isRunnable demo3 0 = false ∧
+    readyFind demo3 0 = false ∧ runnableTasks demo3 false = .ok [] ∧ blockedTasks demo3 false = .ok [0] := by
+  decide
+
+/-- "`_must_cancel` is only ever set on a scheduled task" is false: a `task_is_runnable` that trusts it
+    disagrees with the ready queue in `demo3`. -/
+def isRunnableShortcut (s : State) (t : TaskId) : Bool :=
+  if (s.tasks t).done then false else if (s.tasks t).mustCancel then true else !isBlocked s t
+
+example : isRunnableShortcut demo3 0 = true ∧ readyFind demo3 0 = false := by decide
+
 /-- What the unrepaired `task_from_handle` did: every task-bound callback denotes its task. -/
 def taskFromHandleOld : Handle → Option TaskId
   | .otherBound t => some t
